@@ -5,6 +5,7 @@
 package tls
 
 import (
+	"crypto/ecdh"
 	"crypto/mlkem"
 	crand "crypto/rand"
 	"crypto/sha256"
@@ -2783,6 +2784,7 @@ func (uconn *UConn) ApplyPreset(p *ClientHelloSpec) error {
 		uconn.HandshakeState.State13.KeyShareKeys = &KeySharePrivateKeys{}
 	}
 	uconn.echCtx = ech
+	uconn.extraEcdheKeys = nil
 	hello := uconn.HandshakeState.Hello
 
 	switch len(hello.Random) {
@@ -2917,6 +2919,13 @@ func (uconn *UConn) ApplyPreset(p *ClientHelloSpec) error {
 						// only do this once for the first non-grease curve
 						uconn.HandshakeState.State13.KeyShareKeys.Ecdhe = ecdheKey
 						preferredCurveIsSet = true
+					} else {
+						// remember the keys of further classical shares, so that the
+						// server may select any share that was sent
+						if uconn.extraEcdheKeys == nil {
+							uconn.extraEcdheKeys = make(map[CurveID]*ecdh.PrivateKey)
+						}
+						uconn.extraEcdheKeys[curveID] = ecdheKey
 					}
 				}
 			}
